@@ -9,7 +9,7 @@ from props.c10 import stack_sig, IDENT, SNAP
 
 LEVEL = "proof"
 MANIFEST = dict(
-    text="Lean 4: a macro-step machine of the manager over facts regenerated from the source (the sequence pump's locate / connect / retry-after-not-found rules, the  Session 4: the guard of the retry-exceeded branch is a generated fact (retryExceededNeedsSpa), abandoned_attempt_is_ignored is a theorem (the late failure report of a connection attempt abandoned by a reset cannot move a manager without a spa; genuine defect D8c, fix 4611c09), and the script reset-in-last-retry (resets during the last retry of a failing handshake request) is part of every run. Also: only_disconnect_closes_the_protocol over all 58 regenerated coroutine skeletons (reporting an error never silences the ping loop) and a script with an RF-error period long enough for one connection to count more than 50 reports."
+    text="Lean 4: a macro-step machine of the manager over facts regenerated from the source (the sequence pump's locate / connect / retry-after-not-found rules, the  Session 4: the guard of the retry-exceeded branch is a generated fact (retryExceededNeedsSpa), abandoned_attempt_is_ignored is a theorem (the late failure report of a connection attempt abandoned by a reset cannot move a manager without a spa; genuine defect D8c, fix 4611c09), and the script reset-in-last-retry (resets during the last retry of a failing handshake request) is part of every run. Also: only_disconnect_closes_the_protocol over all 58 regenerated coroutine skeletons (reporting an error never silences the ping loop) and a script with an RF-error period long enough for one connection to count more than 50 reports. Also a network mode in which everything but pings gets RFERR (an error state reached without missing a ping) and every_answered_ping_is_announced over the ping loop skeleton."
          "ping-received reset rule, where failure events land, the LOCATING_FINISHED guard, whether the pump survives exceptions). Its record space is finite: one-step "
          "facts are kernel evaluations over the WHOLE space, lifted by induction to fault scripts of any length: coherence of every reachable record; the FULL "
          "statement recovery_after_every_script (after ANY fault script - loss, blackouts, RF-error periods, resets at any moment incl. inside a discovery or inside "
@@ -29,7 +29,7 @@ def gen_script(rng):
     """a fault script: phases + user resets; returns (phases, resets[(t, label)])"""
     kind = rng.choice(["healthy", "blackout-start", "blackout-mid", "blackout-mid-long", "rferr-mid", "handshake-loss", "reset-steady",
                        "reset-in-connect", "reset-in-discovery", "reset-twice", "reset-in-last-retry", "lossy-mid", "double-blackout", "slow-handshake-then-blackout",
-                       "rferr-long"])
+                       "rferr-long", "rferr-nonping"])
     P, R = [], []
     if kind == "healthy":
         pass
@@ -43,6 +43,10 @@ def gen_script(rng):
         P = [(20, "healthy"), (270, "blackout"), (90, "healthy"), (270, "blackout")]
     elif kind == "rferr-mid":
         P = [(20, "healthy"), (rng.choice([70, 150]), "rferr")]
+    elif kind == "rferr-nonping":
+        # the RF link behind the in.touch2 module is down for a while: pings keep being ANSWERED, every other request gets RFERR;
+        # the manager reaches ERROR_RF_FAULT without ever missing a ping, and the next answered ping must take it out again
+        P = [(rng.choice([100, 200]), "healthy"), (rng.choice([150, 400, 900]), "rferr-nonping")]
     elif kind == "rferr-long":
         # an RF-error period long enough for ONE connection to count more than MAX_RF_ERRORS_BEFORE_HALT (50) reports (the spa answers
         # about one request in forty seconds with RFERR under the idle timing table): ERROR_TOO_MANY_RF_ERRORS, then the fault clears
@@ -228,7 +232,7 @@ def run(ctx):
     nontrivial = set()
     scripts = []
     base_kinds = ["blackout-start", "blackout-mid-long", "reset-in-connect", "rferr-mid", "handshake-loss", "reset-steady",
-                  "slow-handshake-then-blackout", "reset-in-discovery", "reset-twice", "reset-in-last-retry", "rferr-long"]
+                  "slow-handshake-then-blackout", "reset-in-discovery", "reset-twice", "reset-in-last-retry", "rferr-long", "rferr-nonping"]
     for i in range(n):
         k, P, R = gen_script(rng)
         scripts.append((k, P, R))
